@@ -91,6 +91,16 @@ def run(p, xs, resets=(), seed=0):
                        "npcs": 0, "obs": "NA", "k": {"npcs": 0, "score": "0.0", "ref": none, "build": none, "test": none}})
         if nb:
             nb.step()
+        if t in p.get("bads", ()):
+            # a malformed call in between (two observations at once / one column too many): refused, and as if it had never been made
+            badX = np.zeros((2, X.shape[1])) if t % 2 else np.zeros((1, X.shape[1] + 1))
+            try:
+                det.update(badX)
+                op = "bad-accepted"
+            except ValueError:
+                op = "bad"
+            ev.append({"op": op, "total": int(det.total_samples), "since": int(det.samples_since_reset), "state": st(det.drift_state),
+                       "npcs": 0, "obs": "NA", "k": {"npcs": 0, "score": "0.0", "ref": none, "build": none, "test": none}})
         np.random.seed((seed + t) % (2 ** 32))
         err = None
         try:
